@@ -49,13 +49,63 @@ def apply_blocks(fn):
     return [b for b, t in fn.calls() if A.is_call_to(t, APPLY_ANY)]
 
 
-def j_guards(ctx, fn):
-    """journal-lock guards live in fn: acquired via Journal::get_writer / Mutex<Writer>::lock, or received as a parameter"""
-    gs = []
+def j_wrappers(ctx):
+    """local fns that hand out the journal guard (Journal::get_writer and thin wrappers around it)"""
+    w = getattr(ctx, "_j_wrappers", None)
+    if w is None:
+        w = {GET_WRITER}
+        changed = True
+        while changed:
+            changed = False
+            for fid, f in ctx.F.fns.items():
+                if fid in w or f.kind == "closure":
+                    continue
+                rty = f.local_ty(0)
+                if "MutexGuard<" in rty and "journal::writer::Writer" in rty and any(A.cname(t) in w for _, t in f.calls()):
+                    w.add(fid)
+                    changed = True
+        ctx._j_wrappers = w
+    return w
+
+
+def j_acquire_blocks(ctx, fn):
+    w = j_wrappers(ctx)
+    out = []
     for b, t in fn.calls():
         n = A.cname(t)
-        if n == GET_WRITER or (n.startswith("std::sync::Mutex::<") and "journal::writer::Writer" in (t.get("full") or "")
-                               and n.endswith("::lock")):
+        if (n in w and fn.id not in w) or (n.startswith("std::sync::Mutex::<") and "journal::writer::Writer" in (t.get("full") or "") and n.endswith("::lock")):
+            out.append(b)
+    return out
+
+
+def seqno_wrappers(ctx):
+    """local thin wrappers whose result is SequenceNumberCounter::next() of the database generator"""
+    w = getattr(ctx, "_seqno_wrappers", None)
+    if w is None:
+        w = set()
+        for fid, f in ctx.F.fns.items():
+            if f.kind == "closure" or not A.thin_wrapper(f):
+                continue
+            rt = A.Origins(f).of_local(0)
+            if rt.k == "call" and rt.a[0] == SEQNO_NEXT:
+                w.add(fid)
+        ctx._seqno_wrappers = w
+    return w
+
+
+def seqno_draw_blocks(ctx, fn):
+    w = seqno_wrappers(ctx)
+    return [b for b, t in fn.calls() if A.cname(t) == SEQNO_NEXT or A.cname(t) in w]
+
+
+def j_guards(ctx, fn):
+    """journal-lock guards live in fn: acquired via Journal::get_writer (or a wrapper) / Mutex<Writer>::lock, or received as a parameter"""
+    gs = []
+    for b in j_acquire_blocks(ctx, fn):
+        t = fn.term(b)
+        gs.append(A.Guard("J", fn, b, A.guard_aliases(fn, t["dest"]["l"]), "lock"))
+    for b, t in []:
+        if False:
             gs.append(A.Guard("J", fn, b, A.guard_aliases(fn, t["dest"]["l"]), "lock"))
     for l in range(1, fn.argc + 1):
         ty = fn.local_ty(l)
